@@ -248,6 +248,10 @@ func (w *twkbWriter) writePoint(pt Point) error {
 		return fmt.Errorf("mismatched Point coordinate dimensions got %s expected %s", ctype, w.ctype)
 	}
 
+	if w.hasIDs {
+		return fmt.Errorf("ID list is not allowed for Point")
+	}
+
 	if pt.IsEmpty() {
 		w.writeIsEmptyHeader()
 		return nil
@@ -278,6 +282,10 @@ func (w *twkbWriter) writeLineString(ls LineString) error {
 
 	if ctype := ls.CoordinatesType(); ctype != w.ctype {
 		return fmt.Errorf("mismatched LineString coordinate dimensions got %s expected %s", ctype, w.ctype)
+	}
+
+	if w.hasIDs {
+		return fmt.Errorf("ID list is not allowed for LineString")
 	}
 
 	if ls.IsEmpty() {
@@ -312,6 +320,10 @@ func (w *twkbWriter) writePolygon(poly Polygon) error {
 
 	if ctype := poly.CoordinatesType(); ctype != w.ctype {
 		return fmt.Errorf("mismatched Polygon coordinate dimensions got %s expected %s", ctype, w.ctype)
+	}
+
+	if w.hasIDs {
+		return fmt.Errorf("ID list is not allowed for Polygon")
 	}
 
 	if poly.IsEmpty() {
@@ -349,6 +361,9 @@ func (w *twkbWriter) writeMultiPoint(mp MultiPoint) error {
 	}
 
 	if mp.IsEmpty() {
+		if err := w.writeIDList(0); err != nil {
+			return err
+		}
 		w.writeIsEmptyHeader()
 		return nil
 	}
@@ -381,6 +396,9 @@ func (w *twkbWriter) writeMultiLineString(ml MultiLineString) error {
 	}
 
 	if ml.IsEmpty() {
+		if err := w.writeIDList(0); err != nil {
+			return err
+		}
 		w.writeIsEmptyHeader()
 		return nil
 	}
@@ -408,6 +426,9 @@ func (w *twkbWriter) writeMultiPolygon(mp MultiPolygon) error {
 	}
 
 	if mp.IsEmpty() {
+		if err := w.writeIDList(0); err != nil {
+			return err
+		}
 		w.writeIsEmptyHeader()
 		return nil
 	}
@@ -435,6 +456,9 @@ func (w *twkbWriter) writeGeometryCollection(gc GeometryCollection) error {
 	}
 
 	if gc.IsEmpty() {
+		if err := w.writeIDList(0); err != nil {
+			return err
+		}
 		w.writeIsEmptyHeader()
 		return nil
 	}
